@@ -46,7 +46,24 @@ struct Cx<'tcx> {
 
 impl<'tcx> Cx<'tcx> {
     fn path(&self, did: DefId) -> String {
-        self.tcx.def_path_str(did)
+        // def_path_str drops disambiguators: same-named items declared in sibling blocks (macro expansions)
+        // would collide, so non-zero disambiguators of named value/type components are appended as `#d`.
+        let mut s = self.tcx.def_path_str(did);
+        let dp = self.tcx.def_path(did);
+        let mut sfx = String::new();
+        for c in dp.data.iter() {
+            let named = match c.data {
+                rustc_hir::definitions::DefPathData::ValueNs(n) | rustc_hir::definitions::DefPathData::TypeNs(n) => {
+                    n.as_str() != "_"
+                }
+                _ => false,
+            };
+            if named && c.disambiguator != 0 {
+                let _ = write!(sfx, "#{}", c.disambiguator);
+            }
+        }
+        s.push_str(&sfx);
+        s
     }
 
     fn span_loc(&self, sp: rustc_span::Span) -> String {
@@ -773,6 +790,7 @@ impl rustc_driver::Callbacks for Cb {
                 }
             }
             let ty = tcx.type_of(did).instantiate_identity().skip_norm_wip();
+            let mut fnptr = String::from("null");
             let (val, bytes) = match tcx.const_eval_poly(did) {
                 Ok(v) => {
                     let mut bytes = String::from("null");
@@ -792,6 +810,14 @@ impl rustc_driver::Callbacks for Cb {
                             }
                         }
                     }
+                    // a function-pointer constant: name the function it points to
+                    if let mir::ConstValue::Scalar(mir::interpret::Scalar::Ptr(ptr, _)) = v {
+                        if let rustc_middle::mir::interpret::GlobalAlloc::Function { instance } =
+                            tcx.global_alloc(ptr.provenance.alloc_id())
+                        {
+                            fnptr = format!("{}", esc(&cx.path(instance.def_id())));
+                        }
+                    }
                     (format!("{:?}", v), bytes)
                 }
                 Err(_) => ("ERR".into(), "null".into()),
@@ -808,11 +834,12 @@ impl rustc_driver::Callbacks for Cb {
             let sp = tcx.def_span(did);
             let _ = write!(
                 out,
-                "\n{{\"name\":{},\"ty\":{},\"val\":{},\"bytes\":{},\"vis\":{},\"loc\":{},\"exp\":{},\"impl\":{}}}",
+                "\n{{\"name\":{},\"ty\":{},\"val\":{},\"bytes\":{},\"fn\":{},\"vis\":{},\"loc\":{},\"exp\":{},\"impl\":{}}}",
                 esc(&cx.path(did)),
                 cx.ty(ty),
                 esc(&val),
                 bytes,
+                fnptr,
                 esc(&format!("{:?}", tcx.visibility(did))),
                 esc(&cx.span_loc(sp)),
                 sp.from_expansion(),
